@@ -84,7 +84,13 @@ theorem created_ok {rx : Bool} {s : St} {b : Nat} (hg : Good s) (hb : b < s.batc
     (op : Op) (p : Nat) (sp : Option Nat) (lk : Option Link) (hq : fate s op = .quiet)
     (h1 : opClause s ⟨op, .created s.items.length, [.created s.items.length b none], s.pushItem b p sp lk⟩ = none) :
     specStep rx s ⟨op, .created s.items.length, [.created s.items.length b none], s.pushItem b p sp lk⟩ = none := by
-  refine specStep_none h1 (by simp [fateClause, fateChecks, firstFail, hq, slotOk, Ev.isCreated]) ?_ (by simp [Ev.isAnnounce])
+  refine specStep_none h1 (by simp [fateClause, fateChecks, firstFail, hq, slotOk, Ev.isCreated])
+    (frameClause_quiet hq (by simp) (fun c => by
+      simp only [pushItem_bitems, createdOn, List.filterMap]
+      by_cases hc : c = b
+      · subst hc; simp [hb]
+      · have : ¬ b = c := fun x => hc x.symm
+        simp [hc, this])) ?_ (by simp [Ev.isAnnounce])
     (by simp [afterAnnounceOk, List.dropWhile, Ev.isAnnounce]) (counts_pushItem s b p sp none lk)
     (ext_pushItem s b p sp lk) (good_pushItem hg hb hp p sp lk)
   intro ev hev
